@@ -338,3 +338,27 @@ def exchange_cycles(writer_cls, reader_cls, path, cur, back, same, n=2):
                 fails.append((f"exchange-cycle{cyc}:model-returned-earlier-changed", ""))
         earlier.append((cur, spec.dump_fm(cur)))
     return fails
+
+
+REREAD_EVERY = 2          # check.py sets 1 for the thorough tier
+_reads = [0]
+
+
+class HistoryError(Exception):
+    pass
+
+
+def read_twice(reader_cls, path):
+    """history: the same reader OBJECT asked twice (every REREAD_EVERY-th call) — the second answer is the one handed on,
+    and the model returned first must not change while the second is read.  A reader that fails, fails at the first call
+    as before."""
+    reader = reader_cls(path)
+    first = reader.transform()
+    _reads[0] += 1
+    if _reads[0] % REREAD_EVERY:
+        return first
+    before = sx.dumps(pdump(first))
+    second = reader.transform()
+    if sx.dumps(pdump(first)) != before:
+        raise HistoryError("the model returned by the first transform() changed while the same reader read again")
+    return second
